@@ -333,6 +333,23 @@ def run(verdict, tier):
         defn2 = dict(defn)
         defn2["x0"] = None
         jobs.append((defn2, "valid", "mixed_kinds", maps, "row"))
+    # ---- x0 strictly inside but close to a hard bound of a log-transformed coordinate: snapping to the search mesh
+    # may carry the start past the bound, from where the constructor must pull it back -- a valid definition
+    near_jobs = []
+    for (lbv, ubv, plv, puv) in ((1.0, 1000.0, 3.0, 700.0), (0.5, 2500.0, 15.0, 800.0), (1e-3, 640.0, 0.03, 200.0),
+                                 (2.0, 87.0, 4.0, 60.0), (1.0, 1000.0, 30.0, 50.0 * 7)):
+        for frac in (0.9981, 0.9985, 0.9989, 0.99895, 0.9983, 0.9987):
+            x0v = lbv + frac * (ubv - lbv)
+            near_jobs.append((x0v, lbv, ubv, plv, puv))
+    for k, (x0v, lbv, ubv, plv, puv) in enumerate(near_jobs):
+        vm = "near:%d" % k
+        VALUE_MAPS[vm] = [lbv, plv, x0v, puv, ubv]
+        defn = {"x0": [2], "lb": [0], "ub": [4], "plb": [1], "pub": [3]}
+        jobs.append((defn, "valid", "x0_near_log_bound", vm, "row" if k % 2 else "list"))
+        if k % 5 == 0:     # as one coordinate of a 2-D problem
+            VALUE_MAPS[vm + "b"] = [-3.0, -1.0, 0.5, 2.0, 7.0]
+            defn2 = {"x0": [2, 2], "lb": [0, 0], "ub": [4, 4], "plb": [1, 1], "pub": [3, 3]}
+            jobs.append((defn2, "valid", "x0_near_log_bound", vm + "|" + vm + "b", "row"))
     # ---- ulp-neighbour cells: numerically indistinguishable hard bounds ----------
     ulp_jobs = []
     for base in (1.0, -3.0, 0.0, 1e6, -1e-3, 123456.789):
